@@ -766,7 +766,11 @@ func TestVerif_FileBig(t *testing.T) {
 			}
 			g, e := cl.Create(up)
 			if e != nil {
-				t.Fatalf("create: %v", e)
+				// a Create that fails in the middle of a healthy session is a finding, not a harness problem
+				tr.emit("FBig", kv{"api": "ReadFrom", "size": size, "n": 0, "err": "create: " + errClass(e), "equal": false, "pos": 0, "wantpos": size})
+				cl.Close()
+				sess.waitServe(5 * time.Second)
+				continue
 			}
 			n64, e = g.ReadFrom(bytes.NewReader(content))
 			gp := pos(g)
@@ -778,7 +782,10 @@ func TestVerif_FileBig(t *testing.T) {
 			}
 			h, e := cl.Create(up2)
 			if e != nil {
-				t.Fatalf("create: %v", e)
+				tr.emit("FBig", kv{"api": "WriteAt", "size": size, "n": 0, "err": "create: " + errClass(e), "equal": false, "pos": 0, "wantpos": 0})
+				cl.Close()
+				sess.waitServe(5 * time.Second)
+				continue
 			}
 			n, e = h.WriteAt(content, 0)
 			hp := pos(h)
